@@ -42,7 +42,7 @@ fn literal_leaves() -> Vec<(String, RE)> {
     }
     for (l, t) in [
         ("empty", ""), ("quotes", "\"\""), ("ends-with-quote", "say \"hi\""), ("starts-with-quote", "\"hi\" said"), ("ends-with-backslash-quote", "a\\\""), ("only-quote", "\""), ("backslashes", "\\\\"), ("quote-backslash", "\\\""), ("backslash-n", "\\n"), ("newline-tab-cr", "\n\t\r"), ("slashes", "// not a comment"),
-        ("non-bmp", "😀\u{10FFFF}"), ("non-ascii-before-quote", "é\"x"), ("non-ascii-before-backslash", "日本\\語"), ("euro-quote", "€5 for a \"large\" café crème"), ("comma-space", "Smith, John"), ("long-mixed", "The \"quick\" brown \\fox\\ jumps\nover\tthe lazy dog — ünïcödé 日本語 😀 // not a comment \\u{41} \\n \"\" end"), ("bom", "\u{feff}"), ("line-sep", "\u{2028}\u{2029}\u{85}"), ("escape-lookalike", "\\u{41}"), ("trailing-backslash", "abc\\"), ("spaces", "  a  "),
+        ("crlf", "first\r\nsecond"), ("lf-cr", "a\n\rb"), ("bom-inside", "a\u{feff}b"), ("non-bmp", "😀\u{10FFFF}"), ("non-ascii-before-quote", "é\"x"), ("non-ascii-before-backslash", "日本\\語"), ("euro-quote", "€5 for a \"large\" café crème"), ("comma-space", "Smith, John"), ("long-mixed", "The \"quick\" brown \\fox\\ jumps\nover\tthe lazy dog — ünïcödé 日本語 😀 // not a comment \\u{41} \\n \"\" end"), ("bom", "\u{feff}"), ("line-sep", "\u{2028}\u{2029}\u{85}"), ("escape-lookalike", "\\u{41}"), ("trailing-backslash", "abc\\"), ("spaces", "  a  "),
     ] {
         s(l, t.to_string());
     }
@@ -262,8 +262,24 @@ fn check_case(c: &Case, acc: &mut Acc) {
         Ok(Err(err)) => Some(("not-valid-syntax", format!("rendering {rendered:?} does not parse: {}", err.to_string().lines().next().unwrap_or("")))),
         Ok(Ok(e2)) => {
             let t2 = RE::from_expr(&e2);
+            // the rendering is rule syntax: it must read back the same through the rule-text front end
+            let as_rule = catch(|| Rule::parse(&format!("// n\n{rendered}")));
+            let rule_problem = match as_rule {
+                Err(p) => Some(format!("Rule::parse of the rendering panicked: {p}")),
+                Ok(Err(e)) => Some(format!("rendering {rendered:?} is not accepted as a rule body: {}", e.to_string().lines().next().unwrap_or(""))),
+                Ok(Ok(r)) => {
+                    let t3 = RE::from_expr(r.expr());
+                    if t3 != t1 {
+                        Some(format!("as a rule body the rendering {rendered:?} parses to {:?}, the original is {:?}", super::syntax::show_tree(&t3), super::syntax::show_tree(&t1)))
+                    } else {
+                        None
+                    }
+                }
+            };
             if t2 != t1 {
                 Some(("different-tree", format!("rendering {rendered:?} parses to {:?}, the original is {:?}", super::syntax::show_tree(&t2), super::syntax::show_tree(&t1))))
+            } else if let Some(rp) = rule_problem {
+                Some(("rule-text", rp))
             } else {
                 // consequence: both evaluate identically (cheap sanity check on one input)
                 let facts = Value::Map([("x".to_string(), Value::Int(3)), ("y".to_string(), Value::Bool(true))].into_iter().collect());
